@@ -127,7 +127,13 @@ func accepts(w *wl.Wallet, cands map[string][]byte) map[string]string {
 }
 
 // openExt reopens dir without faults, trying the candidate public passphrases, and reads the extended state.
-func openExt(dir string, pubs map[string][]byte, privs map[string][]byte) (Ext, error) {
+func openExt(dir string, pubs map[string][]byte, privs map[string][]byte) (ext Ext, err error) {
+	// a store left half-written can make the loader itself panic: that is "the wallet does not open", not a harness crash
+	defer func() {
+		if r := recover(); r != nil {
+			err = fmt.Errorf("panic while opening the wallet: %v", r)
+		}
+	}()
 	var lastErr error
 	keys := make([]string, 0, len(pubs))
 	for k := range pubs {
